@@ -1,4 +1,5 @@
 import Mainchain.Lemmas.SortKV
+import Mainchain.Lemmas.PaginateRev
 import Mainchain.Lemmas.EntBook
 import Mainchain.Model.Script
 import Mainchain.Props.C18
@@ -31,6 +32,22 @@ theorem c20_pages_partition_by_key (kvs : List (Bytes × α)) (hd : (kvs.map (·
   obtain ⟨hsec, hperm⟩ := sortKV_section kvs hd hne
   refine ⟨_, walkKeys_complete (sortKV kvs) h L hsec hL hL', rfl, ?_⟩
   exact (hperm.filter _).map _
+
+/-- **Paging backward by key (`reverse = true`) is complete and duplicate-free** too: the concatenation of the
+pages is exactly the matching entries in descending key order — a permutation of the matching entries of the
+map.  (A reverse request carrying the key of the top entry is an error of the SDK helper; a walk never sends
+one: `Paginate.key_page_rev_top`.) -/
+theorem c20_pages_partition_by_key_reverse (kvs : List (Bytes × α)) (hd : (kvs.map (·.1)).Nodup) (hne : ∀ e ∈ kvs, e.1 ≠ [])
+    (h : Bytes → α → Bool) (L : Nat) (hL : 1 ≤ L) (hL' : L < two64) :
+    ∃ pages, walkKeysRev (sortKV kvs) (fun k v => some (h k v)) L ((sortKV kvs).length + 2) [] = some pages ∧
+      pages = ((hitsOf h (sortKV kvs)).map (·.2)).reverse ∧
+      pages.Perm ((kvs.filter (fun e => h e.1 e.2)).map (·.2)) := by
+  obtain ⟨hsec, hperm⟩ := sortKV_section kvs hd hne
+  have hrev : (hitsOf h (sortKV kvs).reverse).map (·.2) = ((hitsOf h (sortKV kvs)).map (·.2)).reverse := by
+    unfold hitsOf; rw [List.filter_reverse, List.map_reverse]
+  refine ⟨_, walkKeysRev_complete (sortKV kvs) h L hsec hL hL', hrev, ?_⟩
+  rw [hrev]
+  exact (List.reverse_perm _).trans ((hperm.filter _).map _)
 
 /-- **Paging by offset.**  The page at offset `o` with limit `L` is exactly the matching entries number
 `o … o+L-1` in key order, so the pages at offsets `0, L, 2L, …` partition the matching entries. -/
